@@ -105,6 +105,13 @@ func TestC20_Child(t *testing.T) {
 	case "consolelogger":
 		m["appender.unused.type"] = "Discard"
 		m["logger.l.type"], m["logger.l.layout.type"] = "Console", s.Layout
+	case "console+file": // one logger, two references with the same (default) level range: both targets get every line
+		m["appender.a.type"], m["appender.a.layout.type"] = "Console", s.Layout
+		m["appender.b.type"], m["appender.b.fileDir"], m["appender.b.fileName"], m["appender.b.layout.type"] = "File", s.Dir, "out.log", s.Layout
+		m["logger.l.type"], m["logger.l.appenderRef[0].ref"], m["logger.l.appenderRef[1].ref"] = "Logger", "a", "b"
+	case "default-after-destroy": // a configuration without a root logger came and went: the built-in console logger serves again
+		m["appender.a.type"], m["appender.a.fileDir"], m["appender.a.fileName"], m["appender.a.layout.type"] = "File", s.Dir, "before.log", s.Layout
+		m["logger.l.type"], m["logger.l.appenderRef.ref"] = "Logger", "a"
 	case "twofiles": // two loggers, each with its own File appender, collect their lines in one file
 		for _, a := range []string{"a", "b"} {
 			m["appender."+a+".type"], m["appender."+a+".fileDir"], m["appender."+a+".fileName"], m["appender."+a+".layout.type"] = "File", s.Dir, "out.log", s.Layout
@@ -142,6 +149,10 @@ func TestC20_Child(t *testing.T) {
 	if err := log.Refresh(m); err != nil {
 		fmt.Fprintln(os.Stderr, "C20-CHILD-REFRESH-FAILED", err)
 		os.Exit(8)
+	}
+	if s.Kind == "default-after-destroy" {
+		log.Info(context.Background(), tagT, log.String("phase", "configured"))
+		log.Destroy()
 	}
 	// emit is the log call under test
 	emit := func(g, i int, pad string, crc uint32) {
@@ -343,7 +354,7 @@ func runCrashPoint(s spec) (err error, acked int) {
 	// read the target
 	var data []byte
 	switch s.Kind {
-	case "console", "consolelogger", "console+loggerlayout", "rawhandle-console":
+	case "console", "consolelogger", "console+loggerlayout", "rawhandle-console", "default-after-destroy":
 		data, _ = os.ReadFile(stdoutPath)
 	default:
 		ents, _ := os.ReadDir(s.Dir)
@@ -351,6 +362,30 @@ func runCrashPoint(s spec) (err error, acked int) {
 			if strings.HasPrefix(e.Name(), "out.log") {
 				b, _ := os.ReadFile(filepath.Join(s.Dir, e.Name()))
 				data = append(data, b...)
+			}
+		}
+	}
+	if s.Kind == "console+file" {
+		// both targets are judged: the file here, the console stream below
+		con, _ := os.ReadFile(stdoutPath)
+		for _, a := range acks {
+			needle := fmt.Sprintf("seq=%d||", a.seq)
+			if s.Layout == "JSONLayout" {
+				needle = fmt.Sprintf(`"seq":%d,`, a.seq)
+			}
+			gneedle := fmt.Sprintf("g=%d||", a.g)
+			if s.Layout == "JSONLayout" {
+				gneedle = fmt.Sprintf(`"g":%d,`, a.g)
+			}
+			found := false
+			for _, ln := range strings.Split(string(con), "\n") {
+				if strings.Contains(ln, needle) && strings.Contains(ln, gneedle) {
+					found = true
+					break
+				}
+			}
+			if !found {
+				return fmt.Errorf("the call g=%d seq=%d had returned (acknowledged) before the process died, but its line is not on the console stream, the logger's first target (the file is its second)", a.g, a.seq), len(acks)
 			}
 		}
 	}
@@ -387,7 +422,7 @@ func TestC20_CrashPoints(t *testing.T) {
 		for i := 0; i < B; i++ {
 			l := fmt.Sprintf("s%d", i)
 			s := spec{
-				Kind:   rapid.SampledFrom([]string{"file", "rolling", "console", "filelogger", "rollinglogger", "consolelogger", "file+loggerlayout", "rolling+loggerlayout", "console+loggerlayout", "rolling", "rollinglogger", "twofiles", "restarted-file", "restarted-rolling", "rawhandle-file", "rawhandle-rolling", "rawhandle-console"}).Draw(t, l+"kind"),
+				Kind:   rapid.SampledFrom([]string{"file", "rolling", "console", "filelogger", "rollinglogger", "consolelogger", "file+loggerlayout", "rolling+loggerlayout", "console+loggerlayout", "rolling", "rollinglogger", "twofiles", "restarted-file", "restarted-rolling", "rawhandle-file", "rawhandle-rolling", "rawhandle-console", "console+file", "default-after-destroy"}).Draw(t, l+"kind"),
 				Layout: rapid.SampledFrom([]string{"TextLayout", "JSONLayout"}).Draw(t, l+"layout"),
 				G:      rapid.IntRange(1, 4).Draw(t, l+"G"),
 				N:      rapid.SampledFrom([]int{1, 5, 30, 200, 1500}).Draw(t, l+"N"),
